@@ -205,6 +205,14 @@ def shards(tier, seed):
                             kwargs=dict(n_events=3, n_ins=2, den=4, use_interval=True, prefix=[[0, 1], list(p)]),
                             budget=150, per_path=20))
         out.append(dict(name="n4m3", fn="h_history", kwargs=dict(n_events=4, n_ins=3, prefix=[[0, 1]]), budget=150, per_path=20))
+        # 4 events, 5 insertions over the smallest network in which an event is reached along two paths of different hop
+        # count (0-1-2 and 0-2): a propagation that relaxes every event only once per insertion is wrong exactly there.
+        # Three insertion orders of the two-path part (the neighbour lists are ordered by insertion), then 2 free insertions.
+        pairs4 = [(x, y) for x in range(4) for y in range(4) if x != y]
+        for oi, two_path in enumerate(([[0, 1], [0, 2], [1, 2]], [[0, 2], [0, 1], [1, 2]], [[1, 2], [0, 1], [0, 2]])):
+            for p in [q for q in pairs4 if 3 in q]:  # the 4th insertion brings in the fourth event
+                out.append(dict(name=f"n4m5-twopath{oi}-{p[0]}{p[1]}", fn="h_history",
+                                kwargs=dict(n_events=4, n_ins=5, prefix=two_path + [list(p)]), budget=150, per_path=20))
     else:
         pairs4 = [(x, y) for x in range(4) for y in range(4) if x != y]
         pairs3 = [(x, y) for x in range(3) for y in range(3) if x != y]
